@@ -226,7 +226,8 @@ def gen_bound_decl(rng):
         names = rng.sample(MAGIC_FREE, rng.randint(1, 5))
         attrs = "#[darling(attributes(a))] " if trait != "FromMeta" else ""
         src = "%sstruct R%s%s { %s }" % (attrs, generics, where, ", ".join(field(n, af) for n in names))
-    return trait, src, declared, sorted(planted), flags
+    own = {p: (0 if not own_bounds[p] else own_bounds[p].count("+") + 1) for p in declared}
+    return trait, src, declared, sorted(planted), flags, own
 
 
 def bounds_part(R, prop, binary, tier):
@@ -234,13 +235,13 @@ def bounds_part(R, prop, binary, tier):
     n = 700 if tier == "quick" else 12000
     cases = []
     for i in range(n):
-        trait, src, declared, planted, flags = gen_bound_decl(R.rng)
-        cases.append({"id": i, "op": "derive", "trait": trait, "src": src, "declared": declared, "planted": planted, "flags": flags})
+        trait, src, declared, planted, flags, own = gen_bound_decl(R.rng)
+        cases.append({"id": i, "op": "derive", "trait": trait, "src": src, "declared": declared, "planted": planted, "flags": flags, "own": own})
     results = vlib.run_harness(binary, cases)
     terms, keep, rejected = [], [], 0
     for c in cases:
         r = results.get(c["id"], {})
-        if "unparsed" in r or not r.get("impls"):
+        if r.get("unparsed") or not r.get("impls"):
             rejected += 1
             continue
         body = r["echo"]["body"]
@@ -259,11 +260,8 @@ def bounds_part(R, prop, binary, tier):
         # the receiver's own bounds and where-clause are repeated unchanged
         for p, bs in im["param_bounds"]:
             rest = [b for b in bs if "darling :: FromMeta" not in b]
-            want = [b.strip() for b in re.split(r"\+", re.sub(r"^[^:]*:", "", next((x for x in c["src"][c["src"].index("<") + 1:].split(",") if x.strip().startswith(p)), p + ":"), count=1)) if b.strip()] \
-                if (p + ":") in c["src"].replace(" ", "")[:200] else []
-            # compared loosely (token spacing differs): same number of bounds
-            if len(rest) != len(want) and not (len(want) == 0 and len(rest) == 0):
-                R.violation("header", "impl header changed the receiver's own bounds on %s: %s vs source %s" % (p, rest, want),
+            if p in c["own"] and len(rest) != c["own"][p]:
+                R.violation("header", "impl header changed the receiver's own bounds on %s: %s (the declaration has %d)" % (p, rest, c["own"][p]),
                             {"case": c, "observation": im, "failed": "impl header comparison"})
         if (im.get("where") or "").replace(" ", "") != (r["echo"].get("where_toks") or "").replace(" ", ""):
             R.violation("header", "impl header changed the where-clause: %r vs %r" % (im.get("where"), r["echo"].get("where_toks")),
